@@ -52,6 +52,13 @@ replay: each history is executed on
             References are cached by (class, stored series, format): that they are a function of exactly that
             is the point.  A violation found in the shared driver process is executed again alone in a fork
             of the pristine process; a history that reproduces there is the one reported.
+          * CUTOFFS x the NON-MAIN GROUPS with their own k axis (instances MC_Results_kaxis*): every group holds
+            a series k next to x - main k = 0,1,2; step k = 2,2,2 (the traced step's constant column);
+            initial k = -2,-1,0 (the steady-state run counts up to 0) - and Get asks for step:x, initial:x,
+            main:x with cutoffs none / 0 / 1, argument and model default, with and without suppression.  A
+            cutoff counts stored points, whatever the k column of the holder says.  The evidence counts the
+            retrievals with a cutoff from a non-main group whose k does not start at 0 (cutoff_gets_off_axis).
+            Thorough tier: the same histories also on the solved SIM model, whose real step group has k = 2.
           * a small BaseSolver subclass (the object of test_base_solver.py) for BaseCsv
         after every call a deep snapshot of the three holders, of BaseSolver.VariableList and of
         the BaseSolver's series attributes is taken and compared with the previous one; lists returned
@@ -75,7 +82,8 @@ names the attributes that are its series), as DESIGN.md section 6 C16 fixes.
 
 Values are shipped to TLC as small ints: the known series are small ints already; the floats of the
 solved model are coded 100 + rank among the distinct values of the tracked series (injective), the
-driver's own values are the ints 99 (sentinel appended to returned lists) and 7 (Extend), anything else is -1.
+driver's own values are the ints 99 (sentinel appended to returned lists) and 7 (Extend), anything else is -99
+(UNKNOWN); the known series may hold small negative ints (the k axis of the initial group starts below 0).
 """
 import concurrent.futures
 import importlib
@@ -91,6 +99,7 @@ from harness import core
 SENTINEL = 99
 EXTVAL = 7                                                            # = ExtVal in Results.tla
 NOCUT = -1
+UNKNOWN = -99                                                         # code of a value that is none of the above
 GROUPS = ('main', 'step', 'initial')
 ASK_NAMES = ('t', 'x', 'q', 'a')                                         # names the instances' Asks use
 KNOWN = {'main': {'t': [0, 1, 2], 'x': [4, 5, 6]}, 'step': {}, 'initial': {}}      # = MC_InitStore
@@ -294,12 +303,12 @@ class World(object):
         if type(v) is int and v in (SENTINEL, EXTVAL):
             return v
         if isinstance(v, bool) or not isinstance(v, (int, float)):
-            return -1
+            return UNKNOWN
         if self.table is not None:
-            return self.table.get(v, -1)
-        if v == int(v) and 0 <= v < SENTINEL:
+            return self.table.get(v, UNKNOWN)
+        if v == int(v) and -50 <= v < SENTINEL:
             return int(v)
-        return -1
+        return UNKNOWN
 
     def bname(self, grp, real):
         """behaviour name under which a stored series is shipped to TLC: a tracked series under its own
@@ -354,8 +363,8 @@ def base_cell(cell):
     try:
         f = float(cell)
     except ValueError:
-        return -1
-    return int(f) if f == int(f) and 0 <= f < SENTINEL else -1
+        return UNKNOWN
+    return int(f) if f == int(f) and 0 <= f < SENTINEL else UNKNOWN
 
 
 # --------------------------------------------------------------------------------------
@@ -514,7 +523,7 @@ def bnames(w, grp, reals):
 
 def render_event(w, grp, fmt, before, text):
     """Projection of one rendered table of a group: per tracked series the cells, coded by the stored
-    value they spell (-1 = the cell is not `fmt % stored value`).  before = that group's snapshot."""
+    value they spell (UNKNOWN = the cell is not `fmt % stored value`).  before = that group's snapshot."""
     lines = text.split('\n')
     hdr = lines[0].split('\t') if text != '' else []
     rows = [ln.split('\t') for ln in lines[1:] if ln != '']
@@ -524,14 +533,14 @@ def render_event(w, grp, fmt, before, text):
         if b is None:                   # not shipped to TLC
             continue
         if real not in hdr:             # a stored series without a column: one cell that matches nothing
-            cols[b] = [-1]
+            cols[b] = [UNKNOWN]
             continue
         j = hdr.index(real)
         col = []
         for i, r in enumerate(rows):
             stored = before[real]
             same = i < len(stored) and j < len(r) and (fmt % (stored[i],)) == r[j]
-            col.append(w.code(stored[i]) if same else -1)
+            col.append(w.code(stored[i]) if same else UNKNOWN)
         cols[b] = col
     return {'ok': True, 'hdr': hdr, 'cols': cols, 'ncols': len(hdr), 'tdig': core.digest(text), 'exc': ''}
 
@@ -620,6 +629,10 @@ def execute(beh, kind='known'):
             # census only: cutoff above Model.MaxTime asked of a series that is longer than MaxTime+1
             ev['beyond'] = bool(ev['stored'] and cut_eff is not None and isinstance(m.MaxTime, int) and
                                 cut_eff > m.MaxTime and n_pre > m.MaxTime + 1)
+            # census only: a cutoff asked of a holder whose k column does not start at 0
+            kcol = holder.get('k') if hasattr(holder, 'get') else None
+            ev['off_axis'] = bool(ev['stored'] and cut_eff is not None and isinstance(kcol, list) and kcol and
+                                  kcol[0] != 0)
             # census only: suppression on and the (truncated) series has exactly its k=0 point
             ev['one_point'] = bool(ev['sup'] and ev['stored'] and
                                    (n_pre if cut_eff is None else min(n_pre, cut_eff + 1)) == 1)
@@ -714,7 +727,7 @@ def execute(beh, kind='known'):
                 lines = text.split('\n')
                 hdr = lines[0].split('\t')
                 rows = [ln.split('\t') for ln in lines[1:] if ln != '']
-                cols = {h: [base_cell(r[j]) if j < len(r) else -1 for r in rows] for j, h in enumerate(hdr)}
+                cols = {h: [base_cell(r[j]) if j < len(r) else UNKNOWN for r in rows] for j, h in enumerate(hdr)}
                 first_text.setdefault('base', text)
                 ev.update(ok=True, hdr=hdr, cols=cols, ncols=len(hdr), tdig=core.digest(text),
                           same_first=(text == first_text['base']), exc='')
@@ -819,17 +832,19 @@ def parse_verdict(v):
     return kind, clause, int(at or 0)
 
 
-def judge(rep, behs, kind, need_failing_get=False, need_one_point=False, need_beyond=False):
+def judge(rep, behs, kind, need_failing_get=False, need_one_point=False, need_beyond=False, need_off_axis=False):
     """Replays the behaviours in one world and has TLC judge all recorded traces in one batch."""
     traces = []
     failing = 0
     one_point = 0
     beyond = 0
+    off_axis = 0
     for i, b in enumerate(behs):
         traces.append((i, execute(b, kind)))
         failing += sum(1 for e in traces[-1][1] if e['ev'] == 'Get' and not e['stored'])
         one_point += sum(1 for e in traces[-1][1] if e['ev'] == 'Get' and e.get('one_point'))
         beyond += sum(1 for e in traces[-1][1] if e['ev'] == 'Get' and e.get('beyond'))
+        off_axis += sum(1 for e in traces[-1][1] if e['ev'] == 'Get' and e.get('off_axis'))
         case = {'world': kind, 'behaviour': b}
         if len(rep.samples) < 3:
             case = dict(case, observed=traces[-1][1])
@@ -841,6 +856,10 @@ def judge(rep, behs, kind, need_failing_get=False, need_one_point=False, need_be
     if need_beyond and not beyond:
         raise core.MachineryError('no retrieval with a cutoff above Model.MaxTime from a series longer than '
                                   'MaxTime+1 was executed in world ' + kind)
+    if need_off_axis and not off_axis:
+        raise core.MachineryError('no retrieval with a cutoff from a group whose k does not start at 0 was '
+                                  'executed in world ' + kind)
+    rep.extra['cutoff_gets_off_axis'] = rep.extra.get('cutoff_gets_off_axis', 0) + off_axis
     rep.extra['gets_beyond_maxtime'] = rep.extra.get('gets_beyond_maxtime', 0) + beyond
     rep.extra['gets_of_names_not_stored'] = rep.extra.get('gets_of_names_not_stored', 0) + failing
     rep.extra['suppressed_one_point_gets'] = rep.extra.get('suppressed_one_point_gets', 0) + one_point
@@ -920,10 +939,12 @@ def behaviours_of(rep, cfg, seen, res):
 
 
 QUICK_CFGS = ['MC_Results_quick.cfg', 'MC_Results_quick2.cfg', 'MC_Results_ragged.cfg', 'MC_Results_miss.cfg',
-              'MC_Results_edge.cfg', 'MC_Results_horizon.cfg', 'MC_Results_names.cfg', 'MC_Results_formats.cfg']
+              'MC_Results_edge.cfg', 'MC_Results_horizon.cfg', 'MC_Results_names.cfg', 'MC_Results_formats.cfg',
+              'MC_Results_kaxis.cfg']
 THOROUGH_CFGS = ['MC_Results_thorough.cfg', 'MC_Results_thorough2.cfg', 'MC_Results_ragged_thorough.cfg',
                  'MC_Results_miss_thorough.cfg', 'MC_Results_miss_thorough2.cfg', 'MC_Results_edge_thorough.cfg',
-                 'MC_Results_horizon_thorough.cfg', 'MC_Results_names_thorough.cfg', 'MC_Results_formats_thorough.cfg']
+                 'MC_Results_horizon_thorough.cfg', 'MC_Results_names_thorough.cfg', 'MC_Results_formats_thorough.cfg',
+                 'MC_Results_kaxis_thorough.cfg']
 
 
 def run(rep):
@@ -968,7 +989,7 @@ def _run(rep):
                                      for b in behs for c in b['calls']):
             raise core.MachineryError('%s never asks for a name that is not stored' % cfg)
     everything = [b for cfg in cfgs for b in by_cfg[cfg]]
-    judge(rep, everything, 'known', need_failing_get=True, need_one_point=True, need_beyond=True)
+    judge(rep, everything, 'known', need_failing_get=True, need_one_point=True, need_beyond=True, need_off_axis=True)
     if rep.tier != 'quick':
         rnd = random.Random(rep.seed)
         ragged = by_cfg['MC_Results_ragged.cfg'] + by_cfg['MC_Results_ragged_thorough.cfg']
@@ -983,8 +1004,11 @@ def _run(rep):
         horizon = by_cfg['MC_Results_horizon.cfg'] + by_cfg['MC_Results_horizon_thorough.cfg']
         horizon = [b for b in horizon if all(c['grp'] != 'initial' for c in b['calls'] if c['ev'] == 'Get')]
         rnd.shuffle(horizon)
-        judge(rep, by_cfg['MC_Results_quick.cfg'] + quick_miss + longer[:6000] + main_edge + horizon[:3000],
-              'solved', need_failing_get=True, need_one_point=True, need_beyond=True)
+        kaxis = by_cfg['MC_Results_kaxis.cfg'] + by_cfg['MC_Results_kaxis_thorough.cfg']
+        rnd.shuffle(kaxis)
+        judge(rep, by_cfg['MC_Results_quick.cfg'] + quick_miss + longer[:6000] + main_edge + horizon[:3000] +
+              kaxis[:3000], 'solved', need_failing_get=True, need_one_point=True, need_beyond=True,
+              need_off_axis=True)
         special = {'special': MAIN_FINALLY, 'varlist': ['x', 'y', 't'],
                    'calls': [{'ev': 'RenderTable', 'grp': 'main', 'name': '', 'c': NOCUT, 'i': 0, 'op': '',
                               'b': False, 'fmt': '%.5g'}]}
